@@ -529,7 +529,9 @@ class _GenerateRenderMethod:
         if has_loop:
             self.printer.writeline("loop = __M_loop = runtime.LoopStack()")
 
-        for ident in sorted(to_write):
+        # the names taken from the context come first: the signature of a
+        # def written here may use them as default values
+        for ident in sorted(to_write, key=lambda i: (i in comp_idents, i)):
             if ident in comp_idents:
                 comp = comp_idents[ident]
                 if comp.is_block:
